@@ -92,8 +92,69 @@ fn enumerate(_: &Ctx) -> Box<dyn Iterator<Item = Case>> {
     Box::new(v.into_iter())
 }
 
+// --- the same header wherever it lives -----------------------------------------------
+
+fn straddle_ok(addr: usize, shift: usize) -> Result<(), String> {
+    use mb2_model::encode::{conformant_hdr_tag, hdr, hdr_end_tag};
+    let mut tags: Vec<Vec<u8>> = [1u32, 2, 3, 5, 10].iter().map(|k| conformant_hdr_tag(*k, 0xC11 + *k as u64, 3, 0)).collect();
+    tags.push(hdr_end_tag());
+    let h = hdr(0, &tags, 0);
+    // the header starts `shift` bytes in front of the mark the mapping straddles
+    let start = addr + 4096 - shift;
+    match crate::sbx::at_address(start, &h, |p, _| unsafe { exercise_hdr(p, &HdrOpts { debug: false, max_steps: 64 }) }) {
+        None => Err("INCONCLUSIVE: the address could not be mapped".into()),
+        Some(crate::sbx::Boxed::Inconclusive(w)) => Err(format!("INCONCLUSIVE: {w}")),
+        Some(crate::sbx::Boxed::Crash(s)) => Err(format!("crashed: {s}")),
+        Some(crate::sbx::Boxed::Done(t)) => {
+            let d = expect_hdr(&h).diff(&t, &stored);
+            if d.is_empty() {
+                Ok(())
+            } else {
+                Err(d.join("; "))
+            }
+        }
+    }
+}
+
+fn run_straddle(ctx: &Ctx, rep: &mut SubReport) {
+    if ctx.worker != 0 {
+        return;
+    }
+    let mut granted = 0;
+    for addr in [0x1_0000_0000usize - 4096, 0x2_0000_0000 - 4096, 0x8000_0000 - 4096, 0x100_0000_0000 - 4096] {
+        // in front of the mark, across it at every tag boundary, ending at it, behind it
+        for shift in [4096usize, 136, 112, 88, 72, 56, 40, 24, 16, 8, 0] {
+            match straddle_ok(addr, shift) {
+                Ok(()) => {
+                    granted += 1;
+                    rep.evaluations += 1;
+                    rep.nontrivial.insert((addr + shift) as u64);
+                }
+                Err(m) if m.starts_with("INCONCLUSIVE") => {}
+                Err(m) => {
+                    rep.violations.push(Violation { sub: "straddling-headers".into(), profile: profile_name().into(), message: format!("valid header with five tags, starting {shift} bytes in front of {:#x}: {m}", addr + 4096), case: json!({"addr": addr, "shift": shift}) });
+                    return;
+                }
+            }
+        }
+    }
+    rep.notes.push(format!("{granted} headers decoded around a 2 GiB / 4 GiB / 8 GiB / 1 TiB mark"));
+    rep.samples.push(json!({"mark": "0x100000000", "header_starts_in_front_by": 56, "expect": "all accessors, the walk and the getters as anywhere else"}));
+}
+
+fn replay_straddle(v: &serde_json::Value) -> Result<(), String> {
+    straddle_ok(v["addr"].as_u64().unwrap_or(0) as usize, v["shift"].as_u64().unwrap_or(0) as usize)
+}
+
 pub fn subs() -> Vec<Box<dyn Sub>> {
-    vec![Box::new(PropSub::<Case> {
+    vec![
+        Box::new(LoopSub {
+            name: "straddling-headers",
+            profiles: Profiles::Both,
+            rule: "a valid header with five tags and an end tag mapped in front of, across (at every tag boundary), ending at and behind a 2 GiB / 4 GiB / 8 GiB / 1 TiB mark: the complete stored transcript (accessors, walk, every getter and field) equals the reference model's, wherever the header lives. Non-trivial = every granted mapping",
+            run: run_straddle,
+            replay: replay_straddle,
+        }),Box::new(PropSub::<Case> {
         name: "decode",
         rule: "valid headers from the independent encoder: 0..=12 tags of the 10 non-end kinds in random order/multiplicity, marker field bytes with in-range enumerated fields, information-request lists of 0..=32 entries, both architectures, with/without terminating end tag; enumerated: empty header, each kind alone / duplicated / every ordered pair with a repeated kind, request-list lengths {0,1,2,3,8,32}. Oracle: full transcript (4 header accessors, checksum verification, walk from offset 16 to length, typed fields of every item, 10 getters first-match/None) equals the reference model. Non-trivial = >=3 tags with a duplicated kind; distinct by region hash",
         profiles: Profiles::Both,
